@@ -368,9 +368,11 @@ pub fn run(p: &Params) -> Report {
     let n = p.budget(12_000, 600_000);
     for i in 0..n {
         if i % 12 == 11 {
-            scenario_enr_answer(p.shard_seed(0xE01_0000 + i), &mut rep);
+            let seed = p.shard_seed(0xE01_0000 + i);
+            crate::util::guarded(&mut rep, seed, |rep| scenario_enr_answer(seed, rep));
         } else {
-            scenario(p.shard_seed(0x01_0000 + i), &mut rep);
+            let seed = p.shard_seed(0x01_0000 + i);
+            crate::util::guarded(&mut rep, seed, |rep| scenario(seed, rep));
         }
     }
     rep
